@@ -13,11 +13,7 @@ Hypothesis kec_ne : forall c, e_kec e c <> [].
 Hypothesis kec_inj : forall c c', e_kec e c = e_kec e c' -> c = c'.
 
 (** operations covered by the proof (the others are tied by correspondence only) *)
-Definition proved_op (o : op) : bool :=
-  match o with
-  | GetCommitted _ _ => false
-  | _ => true
-  end.
+Definition proved_op (o : op) : bool := true.
 
 Lemma op_eq_flush (o : op) : o = Flush \/ o <> Flush.
 Proof. destruct o; try (right; discriminate). left. reflexivity. Qed.
@@ -57,6 +53,8 @@ Proof.
   - unfold do_getnonce. pose proof (get_obj_db m a). destruct (get_obj m a). exact H.
   - unfold do_getcode. pose proof (get_obj_db m a). destruct (get_obj m a) as [m1 o]. destruct (obj_code m1 a o). exact H.
   - unfold do_getst. pose proof (get_obj_db m a). destruct (get_obj m a) as [m1 o]. destruct (obj_get_state m1 a o k). exact H.
+  - unfold do_getcommitted. cbn [d_getcommitted cfg_fixed negb]. pose proof (get_obj_db m a).
+    destruct (get_obj m a) as [m1 o]. destruct (obj_get_origin m1 a o k). exact H.
   - unfold do_setbal. pose proof (get_obj_db m a). destruct (get_obj m a) as [m1 o]. exact H.
   - unfold do_addbal. pose proof (get_obj_db m a) as H. destruct (get_obj m a) as [m1 o]. cbn [fst] in H.
     destruct (z =? 0)%Z; [exact H|]. unfold do_setbal. pose proof (get_obj_db m1 a) as H1. destruct (get_obj m1 a) as [m2 o2]. cbn [fst] in H1.
@@ -124,11 +122,11 @@ Proof.
     - apply step_getnonce; exact S.
     - apply step_getcode; exact S.
     - apply step_getst; exact S.
+    - apply step_getcommitted; exact S.
     - apply step_setbal; exact S.
     - apply step_addbal; exact S.
     - apply step_setnonce; exact S.
-    - apply step_setcode; [exact S|]. intro Hc. subst c. unfold wf_thm_b in Hwf.
-      cbn [thm_op is_nil negb] in Hwf. rewrite andb_false_r in Hwf. cbn [andb] in Hwf. discriminate.
+    - apply step_setcode; exact S.
     - apply step_setst; exact S.
     - apply step_addst; exact S.
     - apply step_snap; exact S.
@@ -212,7 +210,9 @@ Qed.
 
 (** from the initial (empty) ledger *)
 Corollary refine_from_empty : forall ops,
-  forallb proved_op ops = true ->
   spec_agree_P wf_thm_b false e spec0 ops (snd (run e cfg_fixed st0 ops)).
-Proof. intros ops Hp. apply refine_run; [left; split; [apply SimC0 | apply spec_wf0] | exact Hp]. Qed.
+Proof.
+  intros ops. apply refine_run; [left; split; [apply SimC0 | apply spec_wf0]|].
+  induction ops as [|o t IH]; [reflexivity | exact IH].
+Qed.
 End Main.
